@@ -169,6 +169,19 @@ func (c *Check) Violation(key string, payload map[string]interface{}) {
 		return
 	}
 	payload["tier"] = c.Tier
+	if c.partial != "" {
+		// child mode: hand everything to the parent, which matches it against the known findings
+		if c.violKeys[key] {
+			return
+		}
+		c.violKeys[key] = true
+		payload["key"] = key
+		if len(c.violLog) < 200 {
+			c.violLog = append(c.violLog, payload)
+		}
+		c.viol++
+		return
+	}
 	for _, f := range c.findings {
 		if f.Status == "known" && f.Key == key {
 			if !c.known[key] {
@@ -182,14 +195,6 @@ func (c *Check) Violation(key string, payload map[string]interface{}) {
 		return
 	}
 	c.violKeys[key] = true
-	if c.partial != "" {
-		payload["key"] = key
-		if len(c.violLog) < 200 {
-			c.violLog = append(c.violLog, payload)
-		}
-		c.viol++
-		return
-	}
 	c.viol++
 	if p := os.Getenv("VERIF_DUMP"); p != "" {
 		if f, err := os.OpenFile(p, os.O_APPEND|os.O_CREATE|os.O_WRONLY, 0o644); err == nil {
@@ -203,6 +208,10 @@ func (c *Check) Violation(key string, payload map[string]interface{}) {
 		return
 	}
 	dir := filepath.Join(verifRoot, "replays", c.ID)
+	if os.Getenv("VERIF_NO_EVIDENCE") != "" {
+		// seeded-change runs from a scratch tree: keep the committed replays and evidence untouched
+		dir = filepath.Join(os.TempDir(), "verif-seed-replays", c.ID)
+	}
 	os.MkdirAll(dir, 0o755)
 	path := filepath.Join(dir, fmt.Sprintf("%d.json", c.viol))
 	payload["property"] = c.ID
@@ -286,9 +295,11 @@ func (c *Check) Finish() int {
 		fmt.Printf("REPLAY: violation %q not reproduced (evaluations=%d)\n", c.replayKey, c.evals)
 		return 0
 	}
-	os.MkdirAll(filepath.Join(verifRoot, "evidence"), 0o755)
 	data, _ := json.MarshalIndent(ev, "", " ")
-	os.WriteFile(filepath.Join(verifRoot, "evidence", c.ID+".json"), data, 0o644)
+	if os.Getenv("VERIF_NO_EVIDENCE") == "" {
+		os.MkdirAll(filepath.Join(verifRoot, "evidence"), 0o755)
+		os.WriteFile(filepath.Join(verifRoot, "evidence", c.ID+".json"), data, 0o644)
+	}
 	fmt.Printf("%s tier=%s evaluations=%d distinct=%d violations=%d exhaustive=%v wall=%.1fs sub=%v\n",
 		c.ID, c.Tier, c.evals, len(c.distinct), c.viol, c.Exhaust, time.Since(c.start).Seconds(), c.sub)
 	if c.viol > 0 {
